@@ -10,6 +10,7 @@ package props
 import (
 	"context"
 	"fmt"
+	"sync"
 	"time"
 
 	pubsub "github.com/libp2p/go-libp2p-pubsub"
@@ -63,15 +64,15 @@ func (f flavour) identityLen() int {
 }
 
 type simNode struct {
-	Fl      flavour
-	KeyIdx  int
-	DB      *dbNode
-	Cfg     *kprconfig.Config
-	Msging  *p2ptest.TestMessaging
-	Sender  p2p.Messaging // what the KeyShareHandler sends through (flavour middleware or plain messaging)
-	trigCh  chan *broker.Event[*epochkghandler.DecryptionTrigger]
-	stop    func()
-	sentPos int
+	Fl        flavour
+	KeyIdx    int
+	DB        *dbNode
+	Cfg       *kprconfig.Config
+	Msging    *p2ptest.TestMessaging
+	Sender    p2p.Messaging // what the KeyShareHandler sends through (flavour middleware or plain messaging)
+	trigCh    chan *broker.Event[*epochkghandler.DecryptionTrigger]
+	stop      func()
+	sentPos   int
 	GnosisCfg *gnosis.Config
 }
 
@@ -179,9 +180,43 @@ func (n *simNode) TakeSent() []p2pmsg.Message {
 	return res
 }
 
+// pubsubMessage wraps bytes the way libp2p hands them to validators and handlers. libp2p's default
+// message id is "from || seqno": chosen by the sender, independent of the payload. The harness gives
+// the same bytes the same id (validator and handler see one message), fresh bytes a fresh id, and
+// every fifth fresh message the id of an earlier, different message (a sender may do that).
 func pubsubMessage(topic string, data []byte) *pubsub.Message {
 	t := topic
-	return &pubsub.Message{Message: &pubsubpb.Message{Data: data, Topic: &t}}
+	return &pubsub.Message{Message: &pubsubpb.Message{Data: data, Topic: &t}, ID: messageIDFor(topic, data)}
+}
+
+var msgIDs = struct {
+	sync.Mutex
+	byBytes map[string]string
+	recent  []string
+	n       int
+}{byBytes: map[string]string{}}
+
+func messageIDFor(topic string, data []byte) string {
+	msgIDs.Lock()
+	defer msgIDs.Unlock()
+	k := topic + "\x00" + string(data)
+	if id, ok := msgIDs.byBytes[k]; ok {
+		return id
+	}
+	msgIDs.n++
+	id := fmt.Sprintf("verif-peer/%d", msgIDs.n)
+	if msgIDs.n%5 == 0 && len(msgIDs.recent) >= 3 {
+		id = msgIDs.recent[len(msgIDs.recent)-3]
+	}
+	if len(msgIDs.byBytes) > 200000 {
+		msgIDs.byBytes = map[string]string{}
+	}
+	msgIDs.byBytes[k] = id
+	msgIDs.recent = append(msgIDs.recent, id)
+	if len(msgIDs.recent) > 64 {
+		msgIDs.recent = msgIDs.recent[len(msgIDs.recent)-64:]
+	}
+	return id
 }
 
 type verdict struct {
